@@ -538,6 +538,19 @@ class AutoRadius(SubCheck):
         rx, ry = abs(a.end.x - a.start.x), abs(a.end.y - a.start.y)
         lim = min(w, h) / 2.0
         out.outcome = (round(rx, 6) == round(ry, 6), max(rx, ry) < lim - 1e-9)
+        # the used value of the given radius: a number of user units, an absolute length (parsed documents: 96 ppi), or a
+        # percentage - of the width for rx, of the height for ry
+        if isinstance(val, str) and val.endswith("%"):
+            want = float(val[:-1]) / 100.0 * (w if which == "rx" else h)
+        elif isinstance(val, str) and val.endswith("in"):
+            want = float(val[:-2]) * 96.0
+        elif isinstance(val, str) and val.endswith("pt"):
+            want = float(val[:-2]) * 4.0 / 3.0
+        else:
+            want = float(val)
+        if want < lim - 1e-9 and (abs(rx - want) > 1e-9 * want or abs(ry - want) > 1e-9 * want):
+            out.fail("rect %gx%g with only %s=%r (%s): corner radii %r x %r, the used value of the given one is %r"
+                     % (w, h, which, val, how, rx, ry, want), [want, want], [rx, ry], kind="auto-radius-value", **case)
         if max(rx, ry) < lim - 1e-9 and abs(rx - ry) > 1e-9 * max(rx, ry):
             out.fail("rect %gx%g with only %s=%r (%s): corner radii %r x %r; the omitted radius must take the used value of "
                      "the given one" % (w, h, which, val, how, rx, ry), [max(rx, ry)] * 2, [rx, ry], kind="auto-radius", **case)
